@@ -1,6 +1,6 @@
 (** C05 -- operator calculus denotes the pointwise / matrix construction. *)
 From Coq Require Import List Bool Ring QArith Qcanon.
-From SV Require Import LinAlg.Mat LinAlg.CQ LinAlg.MExpr LinAlg.CQExpr.
+From SV Require Import LinAlg.Mat LinAlg.CQ LinAlg.MExpr LinAlg.CQExpr LinAlg.RepStack.
 Import ListNotations.
 
 (** For every commutative ring with involution K (R, C, Q, Q[i] ...), every dimension n, every
@@ -78,3 +78,20 @@ Example C05_example :
   let e : c_mexpr := MAdd (MT (MComp (MLeaf A) (MConj (MLeaf B)))) (MScale (cq 3 (-1)) (MGram (MLeaf A))) in
   c_fden 2 e [cq 1 1; cq 2 (-1)] = c_mv (fst (c_mden2 2 e)) [cq 1 1; cq 2 (-1)].
 Proof. vm_compute. reflexivity. Qed.
+
+(** replicated stack: row o of the replicated operator is row j of A applied to slice r of the input, for every
+    number of replicates, operand size and (input axis, output axis) combination *)
+Theorem C05_replicated_stack : forall k m n ia oa (A : cmat) (x : cvec) o,
+  (0 < k)%nat -> (0 < m)%nat -> (0 < n)%nat ->
+  length A = m -> Forall (fun row => length row = n) A -> length x = (k * n)%nat -> (o < k * m)%nat ->
+  let '(r, j) := rep_split k m oa o in
+  nth o (c_mv (rep_mat k m n ia oa A) x) c0 = c_dot (nth j A []) (rep_slice k n ia r x).
+Proof. exact rep_mat_acts. Qed.
+Print Assumptions C05_replicated_stack.
+Theorem C05_replicated_stack_blockdiag : forall k m n (A : cmat) (xs : list cvec),
+  (0 < k)%nat -> (0 < m)%nat -> (0 < n)%nat ->
+  length A = m -> Forall (fun row => length row = n) A ->
+  length xs = k -> Forall (fun v => length v = n) xs ->
+  c_mv (rep_mat k m n 0 0 A) (concat xs) = concat (map (c_mv A) xs).
+Proof. exact rep_mat_blockdiag. Qed.
+Print Assumptions C05_replicated_stack_blockdiag.
